@@ -212,7 +212,7 @@ class PseudoOperand(Operand):
                 self.value = DirectNumericValue(self.value.int)
 
     def resolve_symbols(self, symbol_table):
-        if self.instruction.mnemonic in ["FCB", "FDB", "RMB"] and (self.value.is_symbol() or self.value.is_expression()):
+        if self.instruction.mnemonic in ["FCB", "FDB", "RMB", "END"] and (self.value.is_symbol() or self.value.is_expression()):
             self.value = self.value.resolve(symbol_table)
         return self
 
